@@ -481,8 +481,10 @@ func (s *ec2API) DescribeInstances(in *ec2.DescribeInstancesInput) (*ec2.Describ
 			out.Reservations = []*ec2.Reservation{mk(t), mk(t)}
 		}
 	default:
-		if _, ok := a.insts[t]; ok {
-			out.Reservations = []*ec2.Reservation{mk(t)}
+		for _, id := range ids {
+			if _, ok := a.insts[id]; ok {
+				out.Reservations = append(out.Reservations, mk(id))
+			}
 		}
 	}
 	w.endCall(c, false, "")
